@@ -116,6 +116,33 @@ func wrapHavoc(l *lazyHeap, prefix string, id int) *lazyHeap {
 func (x *Exec) havocAll(s *State, tok *smt.Term) {
 	s.heap = map[string]*smt.Term{}
 	s.lazy = &lazyHeap{base: tok}
+	// locals whose address (or a closure over them) was handed to unknown code
+	for c := range x.shared {
+		x.havocCell(s, c)
+	}
+}
+
+func (x *Exec) havocCell(s *State, c *Cell) {
+	s.cells[c] = x.freshValue("cell_"+c.Name, c.Type)
+}
+
+// shareValue: v is handed to code the engine does not see (argument of an arbitrary call, stored
+// in the heap): the local cells it points to or captures may change at any later unknown call.
+func (x *Exec) shareValue(v Value) {
+	switch v := v.(type) {
+	case *Ptr:
+		if v.Cell != nil {
+			x.shared[v.Cell] = true
+		}
+	case *Closure:
+		for _, b := range v.Binds {
+			x.shareValue(b)
+		}
+	case *Struct:
+		for _, f := range v.Fields {
+			x.shareValue(f)
+		}
+	}
 }
 
 func sameLazy(a, b *lazyHeap) bool {
